@@ -115,7 +115,7 @@ def h_rendezvous(ctx, plan):
   ctx.witness('done')
 
 
-def h_lifecycle(ctx, ndef, plan):
+def h_lifecycle(ctx, ndef, plan, in_handler=()):
   """plan letters: G goUp, 0/1 release deferral i, Q quit (via _quit, as quit() does on its helper thread)"""
   pc, core = fresh_core(ctx)
   old_core = pc.core; pc.core = core
@@ -126,6 +126,13 @@ def h_lifecycle(ctx, ndef, plan):
   try:
     defs = [core._get_go_up_deferral() for _ in range(ndef)]
     released = set(); gone_up = False; quit_done = False
+    def during_going_up(e):
+      # a GoingUp listener that releases deferrals synchronously, while GoingUpEvent is still being dispatched
+      for k in in_handler:
+        if k < ndef and k not in released:
+          defs[k](); released.add(k)
+    if in_handler: core.addListenerByName('GoingUpEvent', during_going_up, priority=5)
+    core.addListenerByName('GoingUpEvent', lambda e: log.append('late GoingUp listener'), priority=-5)
     for i, op in enumerate(plan):
       if op == 'G' and not gone_up:
         core.goUp(); gone_up = True
@@ -139,7 +146,7 @@ def h_lifecycle(ctx, ndef, plan):
         core._quit(); quit_done = True
       up = gone_up and len(released) == ndef
       exp = []
-      if gone_up: exp.append('GoingUpEvent')
+      if gone_up: exp.append('GoingUpEvent'); exp.append('late GoingUp listener')
       if up and (not quit_done or 'UpEvent' in log): exp.append('UpEvent')
       exp_before_quit = list(exp)
       if quit_done: exp = [e for e in exp if e in log[:len(exp)]] + ['GoingDownEvent', 'DownEvent'] if False else exp + ['GoingDownEvent', 'DownEvent']
@@ -167,9 +174,11 @@ def obligations(tier):
   for nd in (0, 1, 2):
     for p in (['G', 'GQ'] if nd == 0 else ['G0', '0G', 'G0Q', '0GQ', 'GQ'] if nd == 1 else ['G01', 'G10', '0G1', '01G', '1G0Q', 'G01Q', 'G0Q']):
       life.append(dict(ndef=nd, plan=p))
+  life += [dict(ndef=1, plan='G', in_handler=(0,)), dict(ndef=2, plan='G1', in_handler=(0,)), dict(ndef=2, plan='1G', in_handler=(0,)),
+           dict(ndef=2, plan='G', in_handler=(0, 1)), dict(ndef=1, plan='GQ', in_handler=(0,))]
   BOUNDS[tier] = dict(rendezvous_histories=plans, legend="R register(symbolic name), W call_when_ready(symbolic dependency subset of 3 names, callback "
                       "behaviour plain/registers-another/raises, three argument forms), L listen_to_dependencies(symbolic component)",
-                      lifecycle=[(c['ndef'], c['plan']) for c in life])
+                      lifecycle=[(c['ndef'], c['plan'], c.get('in_handler', ())) for c in life])
   return [
     Obligation('O1_rendezvous', h_rendezvous, [dict(plan=p) for p in plans], witnesses=('done',), max_decisions=20000,
                desc='fired callbacks == reference closure after every operation; listener wiring; pending waiters'),
